@@ -1,7 +1,7 @@
 (* Lib/CRCProofs.v — CRC-32C detects every single burst error of at most 32 bits.
    Builds on Lib/CRCFast.v (linearity, bounds, incremental law, table variant), which it re-exports.
    No axioms (see Print Assumptions at the end). *)
-From Coq Require Import List NArith Bool Lia ZifyN ZifyNat ZifyBool.
+From Coq Require Import List Arith NArith Bool Lia ZifyN ZifyNat ZifyBool.
 From BLB Require Import Lib.CRC.
 From BLB Require Export Lib.CRCFast.
 Import ListNotations.
@@ -324,4 +324,242 @@ Proof. apply crc_update_detects_burst. reflexivity. Qed.
 Lemma crc_check_passes data c : crc32c data = c -> (crc32c data =? c) = true.
 Proof. intros ->. apply N.eqb_refl. Qed.
 
+Lemma burst_error_intro cw cw' pre b post :
+  (length b <= 32)%nat -> existsb id b = true ->
+  length cw = (pre + length b + post)%nat ->
+  cw' = xorl cw (repeat false pre ++ b ++ repeat false post) ->
+  burst_error cw cw'.
+Proof.
+  intros Hlen Hex Hl Hcw. exists (repeat false pre ++ b ++ repeat false post).
+  split; [exists pre, b, post; auto|]. split; [|exact Hcw].
+  rewrite !app_length, !repeat_length. lia.
+Qed.
+
+(* ------------------------------------------------------------------ *)
+(* a decidable burst predicate on error patterns                       *)
+
+Fixpoint drop_false (l : list bool) : list bool :=
+  match l with
+  | false :: l' => drop_false l'
+  | _ => l
+  end.
+
+(* the error pattern with leading and trailing zeros stripped *)
+Definition burst_core (e : list bool) : list bool :=
+  rev (drop_false (rev (drop_false e))).
+
+Definition is_burst32 (e : list bool) : bool :=
+  match burst_core e with
+  | [] => false
+  | _ :: _ => Nat.leb (length (burst_core e)) 32
+  end.
+
+Lemma drop_false_split l : exists n, l = repeat false n ++ drop_false l.
+Proof.
+  induction l as [|x l [n IH]]; [exists 0%nat; reflexivity|].
+  destruct x; [exists 0%nat; reflexivity|].
+  exists (S n). simpl. f_equal. exact IH.
+Qed.
+
+Lemma drop_false_head l : drop_false l = [] \/ exists t, drop_false l = true :: t.
+Proof.
+  induction l as [|x l IH]; [left; reflexivity|].
+  destruct x; [right; eexists; reflexivity | exact IH].
+Qed.
+
+Lemma rev_repeat_false n : rev (repeat false n) = repeat false n.
+Proof.
+  induction n as [|n IH]; [reflexivity|].
+  simpl. rewrite IH. clear IH.
+  induction n as [|n IH]; [reflexivity|]. simpl. f_equal. exact IH.
+Qed.
+
+Lemma existsb_id_rev l : existsb id (rev l) = existsb id l.
+Proof.
+  induction l as [|x l IH]; [reflexivity|].
+  simpl. rewrite existsb_app, IH. simpl. rewrite orb_false_r. apply orb_comm.
+Qed.
+
+Lemma drop_false_repeat_app n x : drop_false (repeat false n ++ x) = drop_false x.
+Proof. induction n as [|n IH]; [reflexivity|exact IH]. Qed.
+
+Lemma drop_false_app b x : existsb id b = true -> drop_false (b ++ x) = drop_false b ++ x.
+Proof.
+  induction b as [|y b IH]; [discriminate|].
+  destruct y; [reflexivity|]. simpl. exact IH.
+Qed.
+
+Lemma existsb_id_drop_false b : existsb id (drop_false b) = existsb id b.
+Proof. induction b as [|y b IH]; [reflexivity|]. destruct y; [reflexivity | exact IH]. Qed.
+
+Lemma drop_false_length b : (length (drop_false b) <= length b)%nat.
+Proof. induction b as [|y b IH]; [simpl; lia|]. destruct y; simpl in *; lia. Qed.
+
+Theorem is_burst32_spec e : is_burst32 e = true <-> burst32 e.
+Proof.
+  split.
+  - unfold is_burst32, burst_core. intros H.
+    destruct (drop_false_split e) as [n Hn].
+    set (t := drop_false e) in *.
+    destruct (drop_false_split (rev t)) as [m Hm].
+    destruct (drop_false_head (rev t)) as [Hu|[u' Hu]].
+    { rewrite Hu in H. discriminate. }
+    set (u := drop_false (rev t)) in *.
+    assert (Ht : t = rev u ++ repeat false m).
+    { rewrite <- (rev_involutive t), Hm, rev_app_distr, rev_repeat_false. reflexivity. }
+    exists n, (rev u), m. repeat split.
+    + destruct (rev u); [discriminate|]. apply Nat.leb_le in H. exact H.
+    + rewrite existsb_id_rev, Hu. reflexivity.
+    + rewrite <- Ht. exact Hn.
+  - intros (pre & b & post & Hlen & Hex & ->).
+    unfold is_burst32, burst_core.
+    rewrite drop_false_repeat_app, drop_false_app by exact Hex.
+    rewrite rev_app_distr, rev_repeat_false, drop_false_repeat_app.
+    set (b1 := drop_false b).
+    assert (H1 : existsb id (drop_false (rev b1)) = true).
+    { rewrite existsb_id_drop_false, existsb_id_rev. unfold b1.
+      rewrite existsb_id_drop_false. exact Hex. }
+    assert (H2 : (length (rev (drop_false (rev b1))) <= 32)%nat).
+    { rewrite rev_length.
+      pose proof (drop_false_length (rev b1)) as L1. rewrite rev_length in L1.
+      pose proof (drop_false_length b) as L2. fold b1 in L2. lia. }
+    rewrite <- existsb_id_rev in H1.
+    destruct (rev (drop_false (rev b1))); [discriminate|].
+    apply Nat.leb_le. exact H2.
+Qed.
+
+(* decidable form: the xor of the two codewords is a burst *)
+Theorem crc_update_detects_burst_dec (c0 : N) (data data' : list byte) (c c' : N) :
+  c0 < 2 ^ 32 ->
+  c = crc_update c0 data ->
+  length data' = length data ->
+  is_burst32 (xorl (codeword data c) (codeword data' c')) = true ->
+  crc_update c0 data' <> c'.
+Proof.
+  intros Hc0 Hc Hlen Hb. apply (crc_update_detects_burst c0 data data' c c' Hc0 Hc).
+  assert (Hl : length (codeword data c) = length (codeword data' c')).
+  { rewrite !codeword_length, Hlen. reflexivity. }
+  exists (xorl (codeword data c) (codeword data' c')). split; [|split].
+  - apply is_burst32_spec, Hb.
+  - apply xorl_length, Hl.
+  - symmetry. apply xorl_cancel, Hl.
+Qed.
+
+Theorem crc_detects_burst_dec (data data' : list byte) (c c' : N) :
+  c = crc32c data ->
+  length data' = length data ->
+  is_burst32 (xorl (codeword data c) (codeword data' c')) = true ->
+  crc32c data' <> c'.
+Proof. apply crc_update_detects_burst_dec. reflexivity. Qed.
+
+(* the same on the byte strings (data ++ le32 c) as stored on disk / sent on the wire *)
+Corollary crc_detects_burst_bytes (data data' : list byte) (c c' : N) :
+  c = crc32c data ->
+  length data' = length data ->
+  is_burst32 (xorl (bits_of (data ++ le32 c)) (bits_of (data' ++ le32 c'))) = true ->
+  crc32c data' <> c'.
+Proof. rewrite <- !codeword_bytes. apply crc_detects_burst_dec. Qed.
+
+(* ------------------------------------------------------------------ *)
+(* byte-level corollary: any change confined to 4 consecutive bytes    *)
+
+Lemma xorl_allfalse_eq a : forall b,
+  length a = length b -> allfalse (xorl a b) = true -> a = b.
+Proof.
+  induction a as [|x a IH]; intros [|y b] Hl H; simpl in *; try discriminate; [reflexivity|].
+  apply andb_true_iff in H. destruct H as [Hx H].
+  f_equal; [destruct x, y; simpl in Hx; congruence | apply IH; [lia | exact H]].
+Qed.
+
+Lemma byte_bits_inj x y : x < 256 -> y < 256 -> byte_bits x = byte_bits y -> x = y.
+Proof.
+  intros Hx Hy H. unfold byte_bits in H. cbn [map] in H.
+  injection H as H0 H1 H2 H3 H4 H5 H6 H7.
+  apply N.bits_inj; intro n.
+  destruct (N.lt_ge_cases n 8) as [Hn|Hn].
+  - assert (n = 0 \/ n = 1 \/ n = 2 \/ n = 3 \/ n = 4 \/ n = 5 \/ n = 6 \/ n = 7) as Hc by lia.
+    destruct Hc as [->|[->|[->|[->|[->|[->|[->| ->]]]]]]]; assumption.
+  - change 256 with (2 ^ 8) in Hx, Hy. rewrite lt_pow2_bits in Hx, Hy.
+    rewrite Hx, Hy by exact Hn. reflexivity.
+Qed.
+
+Lemma bits_of_inj : forall a b,
+  Forall (fun x => x < 256) a -> Forall (fun x => x < 256) b ->
+  bits_of a = bits_of b -> a = b.
+Proof.
+  induction a as [|x a IH]; intros [|y b] Ha Hb H.
+  - reflexivity.
+  - discriminate.
+  - discriminate.
+  - inversion Ha; subst. inversion Hb; subst.
+    rewrite !bits_of_cons in H. unfold byte_bits at 1 3 in H. cbn [map app] in H.
+    injection H as H0 H1 H2 H3 H4 H5 H6 H7 Hr.
+    f_equal; [|apply IH; assumption].
+    apply byte_bits_inj; try assumption.
+    unfold byte_bits. cbn [map]. congruence.
+Qed.
+
+Theorem crc_update_detects_4bytes (c0 : N) (data data' : list byte) (c c' : N)
+        (p m m' q : list byte) :
+  c0 < 2 ^ 32 ->
+  c = crc_update c0 data ->
+  data ++ le32 c = p ++ m ++ q ->
+  data' ++ le32 c' = p ++ m' ++ q ->
+  length m' = length m -> (length m <= 4)%nat ->
+  bits_of m' <> bits_of m ->
+  crc_update c0 data' <> c'.
+Proof.
+  intros Hc0 Hc E E' Hlm Hl4 Hne.
+  apply (crc_update_detects_burst c0 data data' c c' Hc0 Hc).
+  rewrite !codeword_bytes, E, E', !bits_of_app.
+  assert (Hbl : length (bits_of m) = length (bits_of m')).
+  { rewrite !bits_of_length, Hlm. reflexivity. }
+  apply (burst_error_intro _ _ (length (bits_of p)) (xorl (bits_of m) (bits_of m'))
+                           (length (bits_of q))).
+  - rewrite xorl_length by exact Hbl. rewrite bits_of_length. lia.
+  - rewrite existsb_id_allfalse. apply negb_true_iff.
+    destruct (allfalse (xorl (bits_of m) (bits_of m'))) eqn:Ea; [|reflexivity].
+    exfalso. apply Hne. symmetry. apply xorl_allfalse_eq; assumption.
+  - rewrite !app_length, xorl_length by exact Hbl. lia.
+  - rewrite xorl_app by (rewrite repeat_length; reflexivity).
+    rewrite xorl_app by (rewrite xorl_length by exact Hbl; reflexivity).
+    rewrite !xorl_false_r, xorl_cancel by exact Hbl. reflexivity.
+Qed.
+
+(* any modification of the stored pair (data, checksum) confined to at most 4 consecutive
+   bytes of data ++ le32 c is detected *)
+Theorem crc_detects_4bytes (data data' : list byte) (c c' : N) (p m m' q : list byte) :
+  c = crc32c data ->
+  data ++ le32 c = p ++ m ++ q ->
+  data' ++ le32 c' = p ++ m' ++ q ->
+  length m' = length m -> (length m <= 4)%nat ->
+  Forall (fun x => x < 256) m -> Forall (fun x => x < 256) m' ->
+  m' <> m ->
+  crc32c data' <> c'.
+Proof.
+  intros Hc E E' Hlm Hl4 Fm Fm' Hne.
+  apply (crc_update_detects_4bytes 0 data data' c c' p m m' q); try assumption; [reflexivity|].
+  intros Hb. apply Hne. apply bits_of_inj; assumption.
+Qed.
+
+(* a single corrupted data byte *)
+Corollary crc_detects_byte_flip (p q : list byte) (x y : byte) :
+  x < 256 -> y < 256 -> x <> y ->
+  crc32c (p ++ y :: q) <> crc32c (p ++ x :: q).
+Proof.
+  intros Hx Hy Hne.
+  apply (crc_detects_4bytes (p ++ x :: q) (p ++ y :: q) (crc32c (p ++ x :: q)) _
+                            p [x] [y] (q ++ le32 (crc32c (p ++ x :: q)))).
+  - reflexivity.
+  - rewrite <- !app_assoc. reflexivity.
+  - rewrite <- !app_assoc. reflexivity.
+  - reflexivity.
+  - simpl; lia.
+  - repeat constructor; assumption.
+  - repeat constructor; assumption.
+  - congruence.
+Qed.
+
 Print Assumptions crc_detects_burst.
+Print Assumptions crc_detects_burst_dec.
+Print Assumptions crc_detects_4bytes.
